@@ -63,6 +63,28 @@ Fixpoint value_conv_error (v : value) : bool :=
     end
   end.
 
+(* Value.Value(nil) of a value as the walker has annotated it: a variable use stands for the default
+   value of its definition (in the operation [ann] whose definitions annotate variable uses at this
+   point), so an unrepresentable default is an error at every use, also inside lists and objects *)
+Fixpoint use_conv_error (ann : option opdef) (v : value) : bool :=
+  match v with
+  | mkValue k raw ch _ =>
+    match k with
+    | VInt => int_out_of_range raw 64
+    | VFloat => float_overflow raw
+    | VVar =>
+      match ann with
+      | Some o => match find_vardef raw o.(o_vars) with
+                  | Some vd => match vd.(vd_default) with Some dv => value_conv_error dv | None => false end
+                  | None => false
+                  end
+      | None => false
+      end
+    | VList | VObject => existsb (fun c => let '(_, _, cv) := c in use_conv_error ann cv) ch
+    | _ => false
+    end
+  end.
+
 Section Rules2.
   Variable s : schema.
   Variable doc : qdoc.
@@ -79,7 +101,7 @@ Section Rules2.
     let errs1 := if (vkind_id k =? vkind_id VNull) && type_nonnull exp then [e] else [] in
     if dkind_eqb def.(df_kind) KScalar && negb (builtin_scalar_name def.(df_name)) then errs1 else
     let enums := if dkind_eqb def.(df_kind) KEnum then map ev_name def.(df_enums) else [] in
-    let conv_err := value_conv_error v in
+    let conv_err := use_conv_error ann v in
     let errs2 := if conv_err then [e] else [] in
     errs1 ++ errs2 ++
     match k with
